@@ -104,6 +104,28 @@ void checkModel(const std::string& bytes, const std::string& src, uint64_t seed)
 		std::string sd = saveNif(D, true);
 		if (sd != bytes0) { FileDiff d = diffFiles(bytes0, sd, vclass); R_viol("copy-not-equal", "copy-of-saved-copy/" + d.site, src + ": " + d.detail); return; }
 	}
+	// 1b. models made from rvalues and models that a container relocates (std::vector growth) are full models of their own too
+	R_phase("rvalue-and-container");
+	{
+		R_eval();
+		auto tmp = std::make_unique<NifFile>(*A);
+		NifFile M(std::move(*tmp));
+		tmp.reset();   // whatever M is made of must not live in the object it was made from
+		std::string sm = saveNif(M, true);
+		if (sm != bytes0) { FileDiff d = diffFiles(bytes0, sm, vclass); R_viol("copy-not-equal", "from-rvalue/" + d.site, src + ": a model constructed from an rvalue of a copy (the source of the construction destroyed afterwards) saves differently; " + d.detail); return; }
+		std::vector<NifFile> v;
+		for (int k = 0; k < 4; k++) v.push_back(*A);   // growth relocates the earlier elements
+		for (size_t k = 0; k < v.size(); k++) {
+			std::string sv = saveNif(v[k], true);
+			if (sv != bytes0) { FileDiff d = diffFiles(bytes0, sv, vclass); R_viol("copy-not-equal", "vector-element/" + d.site, src + fmt(": element %zu of a std::vector<NifFile> filled with copies saves differently; ", k) + d.detail); return; }
+		}
+		Frozen f1 = freeze(v[1]);
+		Rng r2(seed ^ 0x5EED);
+		heavyEdits(v[0], r2);
+		if (!unchanged(v[1], f1, src, "vector-element-after-editing-its-neighbour", vclass)) return;
+		v.erase(v.begin());
+		if (!unchanged(v[0], f1, src, "vector-element-after-erasing-its-neighbour", vclass)) return;
+	}
 	// 2. editing the copy leaves the source alone
 	R_phase("edit-copy");
 	{
@@ -200,7 +222,7 @@ void run(size_t idx) {
 MonReg reg({"C11", "exploration",
 			"models: 52 real samples, synthesised files around every geometry class that caches a pointer to its data block (NiTriShape, NiTriStrips, NiLines, NiScreenElements, "
 			"BSLODTriShape, BSSegmentedTriShape, BSTriShape family, particle systems) x 14 versions plus 200 rotating block types, API-built models. Per model under AddressSanitizer: "
-			"copy constructor, assignment onto a non-empty model and copy of a saved copy must raw-save to the source's bytes; then edit sequences (vertex moves, UV inversion, vertex "
+			"copy constructor, assignment onto a non-empty model, copy of a saved copy, construction from an rvalue and the elements of a growing std::vector<NifFile> must raw-save to the source's bytes; then edit sequences (vertex moves, UV inversion, vertex "
 			"deletion, texture and name changes, random block edits, OptimizeFor) on the copy / on the source with the other side frozen (query battery record + canonical block dump "
 			"incl. raw reference indices must stay identical), destruction of the source first (copy still answers, saves, reloads) and of the edited copy first. Non-trivial = model "
 			"that went through all stages.",
